@@ -25,7 +25,8 @@
 EXTENDS RoomBase
 
 CONSTANTS Tampers,      \* subset of {"none", "unsigned", "unprotected", "protected", "nosig"}
-          MaxDeliver    \* bound on the number of deliveries explored
+          MaxDeliver,   \* bound on the number of deliveries explored
+          Byzantine     \* servers that sign and send events their own state does not authorise
 
 (* ---- the redacted form of an event, on the typed contents of EventAuth.tla; the keys kept are those of Redaction.tla ---- *)
 RedactPL(p) == [p EXCEPT !.invite = IF R.keep_pl_invite THEN @ ELSE AbsentV, !.notifications = <<>>]
@@ -80,7 +81,7 @@ FedCreate(s, p, ts) ==
          e == [p EXCEPT !.id = NextId, !.prev = prev, !.auth = auth, !.ts = ts,
                         !.chain = auth \cup UNION {registry[a].chain : a \in auth}]
          k == K(e.type, e.key)
-     IN /\ Auth(stE, e, R)[1] = "allow"
+     IN /\ (s \notin Byzantine => Auth(stE, e, R)[1] = "allow")
         /\ ((k \in DOMAIN st) => (stE[k].c # e.c \/ stE[k].sender # e.sender))
         /\ registry' = registry @@ (e.id :> e)
         /\ view' = [view EXCEPT ![s] = @ @@ (e.id :> "full")]
@@ -150,7 +151,7 @@ SameViewSameState == \A s, t \in Servers :
   (DOMAIN view[s] = DOMAIN view[t] /\ \A j \in DOMAIN view[s] : view[s][j] = view[t][j]) => afterAt[s] = afterAt[t]
 \* when nothing is altered in flight every server holds everything in full, and an event its creator's server authorised is
 \* never rejected by the first two authorization checks of a server that holds the same ancestors
-HonestNeverRejected == (Tampers \subseteq {"none", "unsigned", "protected", "nosig"}) =>
+HonestNeverRejected == (Byzantine = {} /\ Tampers \subseteq {"none", "unsigned", "protected", "nosig"}) =>
   /\ \A s \in Servers : \A i \in DOMAIN view[s] : view[s][i] = "full"
   /\ last.result \notin {"rejected_by_auth_events", "rejected_by_state_before"}
 =============================================================================
